@@ -65,6 +65,28 @@ SUMMARY = {
  "C16-3": "RNG state restored (setstate) before the retry loop: retries draw from the caller's unseeded state",
  "C16-4": "permuted graph built in the argument's iteration order, not label order; needs numbering != listing order",
 }
+SUMMARY.update({
+ "C01-5": "assign_canonical_labels returns the identity when the graph has < 2 bonds: H-D, 16O18O, unbonded 35Cl/37Cl keep the input numbering",
+ "C01-6": "V2000 property lines applied one at a time: each M  RAD/CHG line re-runs the supersede reset and wipes radicals set by an earlier M  RAD line (one entry per line, or > 8 radicals)",
+ "C02-5": "edge list sorted as packed integers with the shift taken from the number of EDGES: labels overflow in multi-fragment molecules with few bonds (HCl + Na vs NaCl + H collide)",
+ "C02-6": "V2000 table-driven property loop: a second M  ISO line replaces the first ((13C)H3D reads as CH3D)",
+ "C03-5": "bliss called without vertex colours when there are exactly two classes (get_number_of_partitions returns the largest index): 14N-15N oscillates",
+ "C03-6": "'discrete partition' shortcut reads labels from the UNREFINED partition: atoms that only refinement separates are merged by relabel_nodes",
+ "C06-5": "M  CHG clears only charges, M  RAD only radicals: a superseded atom-block code 4 survives an M  CHG line",
+ "C06-6": "skip-the-text-line logic for A/G entries also applied to single-line V entries: the line after a 'V  ' line is swallowed",
+ "C07-5": "rstrip('-') continuation join (extract-constants refactor)",
+ "C07-6": "atom-property scan stops (break instead of continue) at the first token without '=': CHG/RAD/MASS after RGROUPS=(2 1 2) or ATTCHORD=(...) are dropped",
+ "C08-5": "single-pass merge with the clearing in an elif: a stale atom-block code on an atom that also has an entry of another kind is not cleared",
+ "C08-6": "line after a 'V  ' entry swallowed",
+ "C09-5": "rstrip('-')/removeprefix join in the reader",
+ "C09-6": "writer lstrips the continuation remainder: a blank at payload column 72 is lost and two tokens fuse",
+ "C10-5": "setdefault duplicate check: repeated attribute with the same value accepted",
+ "C10-6": "lexer error listener calls unicodedata.name() without default: newline/tab/control/private-use characters raise ValueError instead of TucanParserException",
+ "C11-5": "assign_canonical_labels returns the identity for graphs without bonds: 'H2//(1:mass=2)' and its renumbering normalise differently",
+ "C11-6": "new mass >= atomic number check looks the element up in formula order instead of atomic-number order: valid respellings of CH3D are rejected",
+ "C15-5": "unbonded atoms left out of the igraph call: molecules with >= 2 atoms and no bonds raise KeyError",
+ "C15-6": "refinement capped at 1000 rounds (RuntimeError for chains >= 2003 atoms)",
+})
 
 
 def main():
